@@ -214,6 +214,15 @@ def bi_range(eng, args, kwargs, fr):
 def bi_enumerate(eng, args, kwargs, fr):
     if isinstance(args[0], SetVal) and len(args) == 1:
         return SeqIter("enumset", args[0])
+    if len(args) == 1 and isinstance(args[0], SeqIter) and args[0].kind == "genexp":
+        # enumerate(d[k] for k in sorted(d)) over an int -> label dict: the values in the order of their keys
+        n, gfr = args[0].data
+        if len(n.generators) == 1 and not n.generators[0].ifs and isinstance(n.generators[0].target, ast.Name):
+            src = eng.eval(n.generators[0].iter, gfr)
+            if isinstance(src, SeqIter) and src.kind == "sortedintkeys" and isinstance(n.elt, ast.Subscript) and \
+                    isinstance(n.elt.slice, ast.Name) and n.elt.slice.id == n.generators[0].target.id and \
+                    eng.eval(n.elt.value, gfr) is src.data:
+                return SeqIter("enumvalues", src.data)
     if isinstance(args[0], SV) and args[0].t == "key" and len(args) == 1:
         return SeqIter("enumkey", args[0])
     c = eng.concrete_iter(args[0])
@@ -361,6 +370,9 @@ def bi_dict(eng, args, kwargs, fr):
     if len(args) == 1 and not kwargs and isinstance(args[0], (DictVal, PObj)):
         ver = eng.store_of(args[0])
         return eng.alloc(DictVal(ver))
+    if len(args) == 1 and not kwargs and isinstance(args[0], SeqIter) and args[0].kind == "enumvalues":
+        # dict(enumerate(d[k] for k in sorted(d))): positions 0 .. len(d)-1 -> the values of d in key order
+        return eng.alloc(DictVal(FO.base(eng, T.Int, T.Label, "byposition")))
     if len(args) == 1 and not kwargs and isinstance(args[0], SeqIter) and args[0].kind == "enumset":
         # dict(enumerate(S)): some bijection between range(len(S)) and S (the order of a set is not specified)
         return eng.alloc(DictVal(FO.base(eng, T.Int, T.Label, "enum")))
@@ -415,6 +427,8 @@ def _labels_of_keys(eng, gen):
 
 def bi_sorted(eng, args, kwargs, fr):
     (v,) = args
+    if isinstance(v, DictVal) and v.ver.ksort == T.Int and not kwargs:
+        return SeqIter("sortedintkeys", v)
     keyf = kwargs.get("key")
     if isinstance(v, SeqIter) and v.kind == "setofkey":
         _check_ordering_key(eng, keyf)
@@ -504,6 +518,10 @@ def bi_pow(eng, args, kwargs, fr):
 
 
 def bi_max(eng, args, kwargs, fr):
+    if len(args) == 1 and set(kwargs) == {"default"} and isinstance(args[0], DictVal) and args[0].ver.ksort == T.Int \
+            and (isinstance(kwargs["default"], int) or is_intlike(kwargs["default"])):
+        d = kwargs["default"]
+        return SV(FO.maxkey_of(eng, eng.store_of(args[0]), d if isinstance(d, int) else zint(d)), "int")
     return _minmax(eng, args, True)
 
 
